@@ -406,6 +406,57 @@ func unescape(c *explore.Ctx) {
 	c.Case(map[string]any{"string_literal": trunc(d)})
 }
 
+// ---- histories of three decodes into one variable: what a decode leaves behind (backing arrays, map entries,
+// allocated pointers) must influence the next one exactly as it does in encoding/json
+
+type histItem struct{ A, B int }
+
+var histTargets = []reflect.Type{
+	jgen.T[[]histItem](), jgen.T[[]*histItem](), jgen.T[[]map[string]int](), jgen.T[[][]int](), jgen.T[[2]histItem](), jgen.T[map[string][]histItem](),
+	jgen.T[struct{ L []histItem }](), jgen.T[*[]histItem](), jgen.T[[]any](), jgen.T[map[string]*histItem](), jgen.T[[]jgen.NamedAny](), jgen.T[any](),
+}
+
+var histDocs = []string{`[{"A":1}]`, `[]`, `[{"B":2}]`, `null`, `[{"A":3},{"B":4}]`, `[{}]`, `[null]`, `{"k":[{"A":5}]}`, `{"k":[{"B":6}],"L":[{"B":7}]}`, `{"k":null,"L":[]}`}
+
+func histories(c *explore.Ctx) {
+	t := histTargets[c.Choose(len(histTargets))]
+	d1 := c.Choose(len(histDocs))
+	maxLen := 3
+	var n int64
+	var rec func(segT, stdT reflect.Value, path []int)
+	rec = func(segT, stdT reflect.Value, path []int) {
+		if len(path) == maxLen {
+			return
+		}
+		for d := range histDocs {
+			if len(path) == 0 && d != d1 {
+				continue
+			}
+			// replay the path on fresh targets (values cannot be cloned with their spare capacity)
+			s2, r2 := reflect.New(t), reflect.New(t)
+			ok := true
+			full := append(append([]int{}, path...), d)
+			for i, di := range full {
+				n++
+				if !step(c, entries[0], t, []byte(histDocs[di]), s2, r2, "history:"+classOf(t), fmt.Sprintf("document %d of the history %v", i+1, full)) {
+					ok = false
+					break
+				}
+			}
+			if ok {
+				rec(s2, r2, full)
+			}
+		}
+	}
+	rec(reflect.Value{}, reflect.Value{}, nil)
+	c.Inner(n)
+	c.NontrivialStr("hist", typeName(t), fmt.Sprint(d1))
+	c.Outcome("history")
+	if c.WantSample() || c.Failed() {
+		c.Case(map[string]any{"type": typeName(t), "first_document": histDocs[d1], "decodes": n})
+	}
+}
+
 // ---- ',string' fields: the content of the string is not JSON, it is whatever encoding/json's literal store accepts
 
 type soFloat64 struct {
@@ -550,6 +601,7 @@ func Spec() *explore.Spec {
 				Doc: "every type shape of C01's universe (~6700) x {valid documents derived from the type's domain, 200 literal documents: number/string/key tables, malformed forms} x prior state {zero, 6 pre-set values incl. interface-held pointers, result of decoding an earlier document} x entry {Unmarshal, Parse, Decoder x UseNumber x DisallowUnknownFields}; one non-default choice among (entry, prior) per case (two in thorough)"},
 			{Name: "mutated", ShardDepth: 1, Body: mutated, Doc: "leaf / hand-written / map / first-level wrapper types x valid documents x every truncation, deletion, substitution and insertion over a 16-byte class alphabet"},
 			{Name: "token-seqs", ShardDepth: 2, Body: tokenSeqs, Doc: "all token sequences up to 4 (5 thorough) over 18 tokens x 25 target types"},
+			{Name: "histories", ShardDepth: 2, Body: histories, Doc: "every sequence of up to 3 documents (10 documents: arrays that grow, shrink to [], null, objects) decoded one after the other into the same variable of 12 slice / array / map / pointer / interface shapes"},
 			{Name: "string-option", ShardDepth: 2, Body: stringOption, Doc: "struct fields tagged ',string' of 16 kinds (floats, signed/unsigned integers, bool, string, pointers to them, Number, any) x every content string built from <= 3 (thorough 4) of 20 tokens (digits, signs, dot, exponent and hex letters, underscore, white space, true/false/null, escaped quotes, Inf, NaN, escapes) - quoted and bare - x {zero, pre-set} target"},
 			{Name: "unescape", Body: unescape, Doc: "Unescape / AppendUnescape on every string literal of the table"},
 		},
